@@ -55,6 +55,10 @@ type Case struct {
 	WordSp   int `json:"word_spacing,omitempty"`
 	LetterSp int `json:"letter_spacing,omitempty"`
 
+	// StaleVisual != 0: the input runs (and the truncator) carry the visual indices of
+	// an earlier wrapping, as when an application lays wrapped runs out again.
+	StaleVisual int `json:"stale_visual,omitempty"`
+
 	Origin string `json:"origin,omitempty"` // generator description
 	// LevelsFromDirection: run levels were derived from the shaped runs' directions only
 	// (real paragraphs): the true UBA levels may be deeper.
@@ -146,6 +150,9 @@ func (c *Case) BuildRuns() []shaping.Output {
 			o.Glyphs[j] = sg
 		}
 		o.RecomputeAdvance()
+		if c.StaleVisual != 0 {
+			o.VisualIndex = int32((i*5+c.StaleVisual)%9) - 1
+		}
 		outs[i] = o
 	}
 	if c.WordSp != 0 || c.LetterSp != 0 {
@@ -178,6 +185,7 @@ func (c *Case) Truncator() shaping.Output {
 	}
 	o.RecomputeAdvance()
 	o.Runes = shaping.Range{Offset: 0, Count: c.TruncGlyphs}
+	o.VisualIndex = int32(c.StaleVisual)
 	return o
 }
 
